@@ -35,6 +35,11 @@ PS5 == <<Comp("PLate", <<>>, <<>>), Comp("PA", <<>>, <<>>)>>          \* priorit
 PS6 == <<Comp("PA", <<>>, <<>>), Comp("PHandler", <<>>, Kw1("M2"))>>
 PS7 == <<Comp("PHandler", <<>>, Kw1("O2")), Comp("PLate", <<"R1">>, <<>>)>>
 PS8 == <<Comp("PB", <<"L1", "D1">>, Kw2("H1", "M8"))>>
+\* processor types related by inheritance, in both orders and around an unrelated one; a subclass of a default
+PS9  == <<Comp("PADerived", <<"O1">>, <<>>), Comp("PA", <<>>, Kw1("R2"))>>
+PS10 == <<Comp("PA", <<"N1">>, <<>>), Comp("PADerived", <<>>, <<>>)>>
+PS11 == <<Comp("PADerived", <<>>, <<>>), Comp("PB", <<>>, <<>>), Comp("PA", <<"H1">>, <<>>)>>
+PS12 == <<Comp("PUpdSub", <<"N1">>, <<>>), Comp("PADerived", <<>>, <<>>)>>
 
 \* entity lists of length n: explicit ids pairwise distinct and before the automatic ones
 IdSeqs(n, IDs) == {g \in [1 .. n -> IDs \cup {AutoMark}] :
@@ -56,10 +61,10 @@ AgainNever(d) == FALSE
 CONSTANT Fam       \* which family (cfg:  PickDesc <- InFam)
 SHsT == {SH0, SH1, SH3, SH4, SH5}
 PSOf(k) == CASE k = "TS0" -> PS0 [] k = "TS1" -> PS1 [] k = "TS2" -> PS2 [] k = "TS3" -> PS3
-             [] k = "TS4" -> PS4 [] k = "TS5" -> PS5 [] k = "TS6" -> PS6 [] k = "TS7" -> PS7 [] k = "TS8" -> PS8
+             [] k = "TS4" -> PS4 [] k = "TS5" -> PS5 [] k = "TS6" -> PS6 [] k = "TS7" -> PS7 [] k = "TS8" -> PS8 [] k = "TS9" -> PS9 [] k = "TS10" -> PS11
 QuickV(d) == InV(d, ArgsOne \cup ArgsTwo(Core), {"CPlain", "CHandler"}, {"PA"})
 QuickS(d) == \/ InS(d, {PS0}, 3, IdsQ, {SH0, SH1, SH3})
-             \/ InS(d, {PS0, PS2, PS5, PS6}, 2, {<<"s", 1>>, <<"i", 1>>, <<"i", 0>>}, {SH0, SH1, SH3, SH4})
+             \/ InS(d, {PS0, PS2, PS5, PS6, PS9, PS10, PS11, PS12}, 2, {<<"s", 1>>, <<"i", 1>>, <<"i", 0>>}, {SH0, SH1, SH3, SH4})
 InFam(d) ==
     \/ Fam = "tiny"   /\ (InS(d, {PS0, PS2}, 2, {<<"i", 1>>}, {SH1, SH3}) \/ InV(d, {<< <<"R2">>, Kw1("H2") >>}, {"CHandler"}, {}))
     \/ Fam = "quickV" /\ QuickV(d)
@@ -70,5 +75,5 @@ InFam(d) ==
     \/ Fam = "TV2"    /\ InV(d, ArgsOne \cup ArgsTwo(Toks), {"CHandler"}, {})
     \/ Fam = "TV3"    /\ InV(d, ArgsOne \cup ArgsTwo(Toks), {}, {"PA", "PHandler"})
     \/ Fam = "TB"     /\ InS(d, {PS0, PS6}, 3, IdsB, {SH0, SH1, SH2, SH3})
-    \/ Fam \in {"TS0", "TS1", "TS2", "TS3", "TS4", "TS5", "TS6", "TS7", "TS8"} /\ InS(d, {PSOf(Fam)}, 3, IdsT, SHsT)
+    \/ Fam \in {"TS0", "TS1", "TS2", "TS3", "TS4", "TS5", "TS6", "TS7", "TS8", "TS9", "TS10"} /\ InS(d, {PSOf(Fam)}, 3, IdsT, SHsT)
 =============================================================================
